@@ -162,7 +162,7 @@ func genFWPacket() *rapid.Generator[FWPacket] {
 }
 
 const c12PureRule = "rule lists (0-6 rules, YAML-shaped maps: keys in random case / unknown / non-string, values of every type, " +
-	"literal / regex-grammar / malformed patterns) x 12 packets over a colliding name alphabet; non-trivial = a regex field or a packet for which a later " +
+	"literal / regex-grammar / malformed patterns) x 12 packets over a colliding name alphabet; one case in twenty also goes through the node configuration entry point (types.NodeCfg.Init); non-trivial = a regex field or a packet for which a later " +
 	"rule with a different action is shadowed by the first match, or a rule set that must be refused; distinct by canonical JSON"
 
 func TestC12Pure(t *testing.T) {
@@ -178,8 +178,9 @@ func TestC12Pure(t *testing.T) {
 func genC12Pure(t *rapid.T) C12Pure {
 	clean := rapid.IntRange(0, 9).Draw(t, "clean") < 7
 	return C12Pure{
-		Rules:   rapid.SliceOfN(genFWRule(clean), 0, 6).Draw(t, "rules"),
-		Packets: rapid.SliceOfN(genFWPacket(), 12, 12).Draw(t, "packets"),
+		Rules:     rapid.SliceOfN(genFWRule(clean), 0, 6).Draw(t, "rules"),
+		Packets:   rapid.SliceOfN(genFWPacket(), 12, 12).Draw(t, "packets"),
+		ViaConfig: rapid.IntRange(0, 19).Draw(t, "viaconfig") == 0,
 	}
 }
 
